@@ -67,6 +67,24 @@ theorem tail_depends_on_whole_nonce (k : B) (m : Mac B) (dms : List (Mac B)) (tr
   rw [hnc] at hc; simp only [chain, Option.some.injEq] at hc
   rw [← hc] at he; simpa [finIf, hnp] using he
 
+/-- the converse direction, "cannot be removed" as seen by the caller: every returnable caveat of
+the accepted token is in the result, and the token's own caveats come first, in the token's order
+(the result starts with them) -/
+theorem own_caveats_returned_in_order (k : B) (m : Mac B) (dms : List (Mac B)) (tr : Bytes → List B)
+    (cs : List (Cav B)) (hv : verify k m dms tr = .ok cs) :
+    m.cavs.filter (kept true) <+: cs ∧ ∀ c ∈ m.cavs, kept true c = true → c ∈ cs := by
+  obtain ⟨dcs, rfl, _⟩ := verify_returns_carried k m dms tr cs hv
+  refine ⟨List.prefix_append _ _, fun c hc hk => ?_⟩
+  exact List.mem_append.mpr (Or.inl (List.mem_filter.mpr ⟨hc, hk⟩))
+
+/-- with no discharge presented the result is exactly the token's own returnable caveats -/
+theorem no_discharges_returns_own (k : B) (m : Mac B) (tr : Bytes → List B)
+    (cs : List (Cav B)) (hv : verify k m [] tr = .ok cs) : cs = m.cavs.filter (kept true) := by
+  obtain ⟨dcs, rfl, h⟩ := verify_returns_carried k m [] tr cs hv
+  cases dcs with
+  | nil => simp
+  | cons c _ => obtain ⟨d, hd, _⟩ := h c (by simp); cases hd
+
 /-! ### non-vacuity (symbolic instance; the attacker-level witnesses are in Props/Symbolic.lean) -/
 
 section examples
@@ -82,6 +100,8 @@ example := verify_tail (atom 0) t1 [td] (fun _ => []) _ (by rfl)
 example := verify_returns_carried (atom 0) t1 [td] (fun _ => []) _ (by rfl)
 example := returned_is_presented (atom 0) t1 [td] (fun _ => []) _ (by rfl)
 example := tail_depends_on_whole_nonce (atom 0) t0 [] (fun _ => []) [] (by rfl) rfl rfl
+example := own_caveats_returned_in_order (atom 0) t1 [td] (fun _ => []) _ (by rfl)
+example := no_discharges_returns_own (atom 0) t0 (fun _ => []) _ (by rfl)
 -- a caveat removed / the proof flag flipped / the version changed: rejected
 example : verify (atom 0) { t1 with cavs := t1.cavs.take 2 } [td] (fun _ => []) = .error .invalid := by rfl
 example : verify (atom 0) { t1 with cavs := t1.cavs.drop 1 } [td] (fun _ => []) = .error .unsealVK := by rfl
@@ -97,3 +117,5 @@ end Macaroon.Props.C01
 #print axioms Macaroon.Props.C01.returned_is_presented
 #print axioms Macaroon.Props.C01.verify_ignores_location
 #print axioms Macaroon.Props.C01.tail_depends_on_whole_nonce
+#print axioms Macaroon.Props.C01.own_caveats_returned_in_order
+#print axioms Macaroon.Props.C01.no_discharges_returns_own
